@@ -36,6 +36,8 @@ def gen_price(r: random.Random, tick: float, p0: float, side: str, spread_bias: 
         px = p0 * r.choice([0.5, 0.8, 1.25, 2.0])  # far
     elif v < 0.26:
         px = px + tick * r.choice([1e-9, -1e-9, 0.5, 0.999999])
+    elif v < 0.275:
+        px = tick * r.choice([0.4, 0.75, 0.999, 1.5])  # below or just above one tick
     if px <= 0:
         px = tick
     return float(px)
@@ -58,9 +60,12 @@ def gen_history(r: random.Random, profile: str = "mix") -> Dict[str, Any]:
     p_toggle = r.choice([0.0, 0.0, 0.05, 0.15])
     p_hostile = r.choice([0.0, 0.0, 0.03, 0.08])
     bigvol = r.random() < 0.15
+    typed = r.random() < 0.2  # order fields computed with NumPy / float arithmetic (same values, other types)
     ops: List[Dict[str, Any]] = []
     outage = 0
     templates = []
+    if r.random() < 0.25:
+        templates.append("toprem")
     if r.random() < 0.3:
         templates.append("deep")
     if r.random() < 0.25:
@@ -83,6 +88,8 @@ def gen_history(r: random.Random, profile: str = "mix") -> Dict[str, Any]:
             ttl = r.choice([1, 2, 3, 10]) if r.random() < p_ttl else None
         if ttl is not None:
             op["ttl"] = ttl
+        if typed and r.random() < 0.3:
+            op["typ"] = r.choice(["np", "fl"])
         c = (continuous and outage == 0) if cont is None else cont
         if c:
             op["cont"] = True
@@ -110,6 +117,22 @@ def gen_history(r: random.Random, profile: str = "mix") -> Dict[str, Any]:
                 else:
                     # take out the top with a crossing order
                     add(m=m, side="s" if side == "b" else "b", kind="market", vol=r.randint(1, 3), cont=True, ttl=None)
+        elif tpl == "toprem":
+            # 7-14 resting orders on one side; non-top cancels interleaved with removals of the top (cancel of the
+            # best order, or a unit market order), no matching round or expiry in between to repair the heap
+            side = r.choice("bs")
+            for _ in range(r.randint(7, 14)):
+                lv = r.randint(0, 9)
+                px = (base - lv) * t if side == "b" else (base + lv) * t
+                add(m=m, side=side, kind="limit", px=max(px, t), vol=r.randint(1, 3), cont=False, ttl=None)
+            for _ in range(r.randint(4, 10)):
+                u = r.random()
+                if u < 0.55:
+                    ops.append({"k": "cancel", "m": m, "ref": "nonbest", "side": side, "nth": r.randrange(40), "cont": False})
+                elif u < 0.9:
+                    ops.append({"k": "cancel", "m": m, "ref": "best", "side": side, "cont": False})
+                else:
+                    add(m=m, side="s" if side == "b" else "b", kind="market", vol=r.randint(1, 4), cont=True, ttl=None)
         elif tpl == "samelevel":
             side = r.choice("bs")
             px = (base + r.randint(-2, 2)) * t
@@ -176,8 +199,11 @@ def gen_history(r: random.Random, profile: str = "mix") -> Dict[str, Any]:
         ops.append({"k": "run", "m": 1, "v": True})
     ops.append({"k": "match_all"})
     ops.append({"k": "tick"})
-    return {"format": 1, "driver": "B", "runner_seed": r.randrange(2 ** 31), "config": cfg, "ops": ops,
-            "knobs": {"storage_chunk": r.choice([None, None, 2, 3, 5])}, "taps": False}
+    scn = {"format": 1, "driver": "B", "runner_seed": r.randrange(2 ** 31), "config": cfg, "ops": ops,
+           "knobs": {"storage_chunk": r.choice([None, None, 2, 3, 5])}, "taps": False}
+    if r.random() < 0.12:
+        scn["logger"] = False  # a run without any logger: nothing keeps the log objects alive
+    return scn
 
 
 def gen_deep(r: random.Random, profile: str = "deep") -> Dict[str, Any]:
@@ -190,7 +216,7 @@ def gen_deep(r: random.Random, profile: str = "deep") -> Dict[str, Any]:
     cfg = base_config(1, n_agents, [tick], [p0])
     cfg["SA"]["assetVolume"] = 10 ** 7
     cfg["SA"]["cashAmount"] = 10 ** 12
-    n_ops = r.choice([600, 1200, 2500, 2500, 6000]) if r.random() < 0.9 else 600
+    n_ops = r.choice([600, 1200, 2500]) if r.random() < 0.95 else 6000
     spread = r.choice([20, 60, 200])
     bigvol = r.random() < 0.3
     p_tick = r.choice([0.05, 0.15, 0.3])
